@@ -4,6 +4,7 @@ import (
 	"context"
 	"errors"
 	"sync"
+	"sync/atomic"
 
 	"github.com/buchgr/bazel-remote/v2/cache"
 	"github.com/buchgr/bazel-remote/v2/utils/verifhook"
@@ -49,7 +50,8 @@ func (c *diskCache) findMissingCasBlobsInternal(ctx context.Context, blobs []*pb
 	const batchSize = 20
 
 	var cancelContextForFailFast context.CancelFunc = nil
-	cancelledDueToFailFast := false
+	// Written by several containsWorker goroutines, hence atomic.
+	var cancelledDueToFailFast atomic.Bool
 
 	if failFast && c.proxy != nil {
 		var cancel context.CancelFunc
@@ -58,7 +60,7 @@ func (c *diskCache) findMissingCasBlobsInternal(ctx context.Context, blobs []*pb
 
 		cancelContextForFailFast = func() {
 			// Indicate that we were canceled so that we can fail fast.
-			cancelledDueToFailFast = true
+			cancelledDueToFailFast.Store(true)
 			cancel()
 		}
 	}
@@ -71,7 +73,7 @@ func (c *diskCache) findMissingCasBlobsInternal(ctx context.Context, blobs []*pb
 	for len(remaining) > 0 {
 		select {
 		case <-ctx.Done():
-			if cancelledDueToFailFast {
+			if cancelledDueToFailFast.Load() {
 				return errMissingBlob
 			}
 			return errRequestCancelled
@@ -115,7 +117,7 @@ func (c *diskCache) findMissingCasBlobsInternal(ctx context.Context, blobs []*pb
 				verifhook.Step("fm.beforepoll", chunk[i].Hash)
 				select {
 				case <-ctx.Done():
-					if cancelledDueToFailFast {
+					if cancelledDueToFailFast.Load() {
 						return errMissingBlob
 					}
 					return errRequestCancelled
@@ -147,7 +149,7 @@ func (c *diskCache) findMissingCasBlobsInternal(ctx context.Context, blobs []*pb
 		verifhook.Step("fm.beforeselect", "")
 		select {
 		case <-ctx.Done():
-			if cancelledDueToFailFast {
+			if cancelledDueToFailFast.Load() {
 				return errMissingBlob
 			}
 			return errRequestCancelled
@@ -157,7 +159,7 @@ func (c *diskCache) findMissingCasBlobsInternal(ctx context.Context, blobs []*pb
 		// A proxyCheck may have reported a miss just before the last one
 		// finished: then both cases above were ready and select picked one
 		// at random. All proxyChecks are done here, so check the flag.
-		if cancelledDueToFailFast {
+		if cancelledDueToFailFast.Load() {
 			return errMissingBlob
 		}
 	}
